@@ -32,3 +32,11 @@ def run(ctx):
         ctx.evaluations += 1
         ctx.distinct.add(("close", c["state"], c["cancel"], c["dir"], c["returned"]))
     ctx.extra["transport_close_cases"] = n
+    # recorded executions of the repository's own tests (hook lines: send / sent / notify / the cleanup handler's REAL CleanupChannel and
+    # Unprotect calls) validated as behaviours of Chan.tla by the trace specification ChanTrace.tla, C09_ExactlyOnce / NeverWithout on every state
+    if ctx.quick():
+        stages.repo_suite_chantrace(ctx, ["C09."])
+    else:
+        stages.repo_suite_traces(ctx, ["C09."])
+        import importlib
+        importlib.import_module("props.c01").gsx_traces(ctx, ["C09."], 40)
